@@ -19,6 +19,8 @@ fn run_case(line: &str) -> String {
       "rope" => rope::rope_case(&mut t),
       "tree" => tree::tree_case(&line_owned),
       "rhist" => hist::rhist_case(&mut t),
+      "wr" => tree::writer_case(&mut t),
+      "comp" => tree::comp_case(&line_owned),
       "thist" => hist::hist_case(&line_owned, false),
       "chist" => hist::hist_case(&line_owned, true),
       "pair" => hist::pair_case(&mut t),
